@@ -6,6 +6,7 @@
 //!   abv probe ...                      child-process probes (native stack depth)
 
 mod drive;
+mod exec;
 mod gen;
 mod model;
 mod props;
